@@ -234,6 +234,7 @@ class PrintExec(ME.MiniExec):
 
     depth = 0
     concrete_ints = False
+    exec_unit_calls = False   # statement-level calls of functions of the unit are executed too (opt-in)
 
     def call_unit_function(self, g, args, env):
         """execute a function of the unit over the same model: parameters are bound by value where the argument evaluates, and by
@@ -254,6 +255,7 @@ class PrintExec(ME.MiniExec):
         sub = PrintExec(self.tu, self.heap, self.accessors, self.printers, self.max_iter)
         sub.ev.globals = self.ev.globals
         sub.concrete_ints = self.concrete_ints
+        sub.exec_unit_calls = self.exec_unit_calls
         sub.depth = self.depth + 1
         sub.retval = 'none'
         r = sub.run(g.body, env2)
@@ -299,6 +301,13 @@ class PrintExec(ME.MiniExec):
                             rest.pop(0)
                     a = rest.pop(0) if rest else None
                     if m.group(1) == 's':
+                        if self.concrete_ints and a is not None:
+                            try:
+                                v = self.val(a, env)
+                            except F.AnalysisBroken:
+                                v = None
+                            if isinstance(v, str):
+                                return v
                         return 'X'
                     if self.concrete_ints and a is not None and m.group(1) in 'duxi':
                         try:
@@ -315,6 +324,9 @@ class PrintExec(ME.MiniExec):
                 return 'fall'
             if c in self.accessors:
                 self.accessors[c](F.call_args(s), env, self)
+                return 'fall'
+            if self.exec_unit_calls and c in self.tu.funcs and self.tu.funcs[c].body is not None and self.depth < 3:
+                self.call_unit_function(self.tu.funcs[c], F.call_args(s), env)
                 return 'fall'
         if s is not None and s['k'] in ('BinaryOperator', 'UnaryOperator', 'CompoundAssignOperator', 'ParenExpr') and impure(s) \
                 and not (s['k'] == 'UnaryOperator' and s['op'] in ('++', '--')) and s['k'] != 'CompoundAssignOperator' \
